@@ -27,7 +27,8 @@
     for all fuel.
   * A `SignalActivation` constructed while the emitter has no data for the signal is inert
     (`data = 0`: constructor, loop and destructor touch nothing); the model pushes no frame for it.
-  * The iterator of the emission loop is an index into the slot list.  (Entries are never
+  * The iterator of the emission loop is an index into the slot list, or `none` for the `end`
+    iterator captured when the list was empty at construction.  (Entries are never
     unlinked while an activation of that signal exists, so an index denotes the same node
     for the whole emission.)  Skipping non-`connected` entries between two invocations
     happens without any state change and is one call of `nextConnected`.
@@ -242,11 +243,13 @@ def delEmitter (e : Nat) (st : State) : State :=
 
 /-! ### `SignalActivation::SignalActivation` (Callback.cpp:32-48)
 
-  Returns the activation (its frame id) and the iterator `begin` (index 0).  When the emitter
+  Returns the activation (its frame id) and the iterator `begin`: `some 0` = the first entry, `none` =
+  the `end` iterator when the list is empty at construction (then `begin == end` for good: entries
+  appended later are never reached, Callback.cpp:45-46).  When the emitter
   has no data for the signal the C++ object is inert (`data = 0`, `next = 0`, `begin == end`:
   constructor, loop and destructor touch nothing): no frame is pushed and `none` is returned. -/
 
-def actBegin (e g : Nat) (st : State) : State × Option (Nat × Nat) :=
+def actBegin (e g : Nat) (st : State) : State × Option (Nat × Option Nat) :=
   match st.emitters e with
   | none => (st.faulted, none)
   | some em =>
@@ -255,7 +258,8 @@ def actBegin (e g : Nat) (st : State) : State × Option (Nat × Nat) :=
     | some d =>
       let fid := st.frames.length
       let st1 : State := { st with frames := ({ next := d.activation, invalidated := false, data := (e, g) } : Frame) :: st.frames }
-      (st1.setEmitter e (some (em.setSig g { d with activation := some fid })), some (fid, 0))
+      (st1.setEmitter e (some (em.setSig g { d with activation := some fid })),
+        some (fid, if d.slots.isEmpty then none else some 0))
 
 /-! ### the loop of `emit` between two invocations (Callback.hpp:42-43) -/
 
@@ -272,19 +276,24 @@ inductive Step (π : Type) where
   | call (l s : Nat) (p : π)
   | fault
 
-/-- from iterator position `idx` of activation `fid`: the next slot to invoke -/
-def next (st : State) (fid idx : Nat) : Step Nat :=
+/-- from iterator position `pos` of activation `fid` (`none` = the `end` iterator captured for a list
+    that was empty at construction, `some idx` = the entry with that index, or the end of the
+    current list when there is none): the next slot to invoke -/
+def next (st : State) (fid : Nat) (pos : Option Nat) : Step (Option Nat) :=
   match frameAt st.frames fid with
   | none => .fault
   | some f =>
     if f.invalidated then .done                  -- `if(activation.invalidated) return;`
     else
-      match st.data f.data.1 f.data.2 with
-      | none => .fault                           -- the slot list is gone
-      | some d =>
-        match nextConnected d.slots idx with
-        | none => .done
-        | some (j, sl) => .call sl.object sl.slot (j + 1)
+      match pos with
+      | none => .done                            -- `begin == end`
+      | some idx =>
+        match st.data f.data.1 f.data.2 with
+        | none => .fault                         -- the slot list is gone
+        | some d =>
+          match nextConnected d.slots idx with
+          | none => .done
+          | some (j, sl) => .call sl.object sl.slot (some (j + 1))
 
 /-! ### `SignalActivation::~SignalActivation` (Callback.cpp:50-72) -/
 
@@ -357,7 +366,7 @@ structure Machine (σ α π : Type) where
   next : σ → α → π → Step π
   finish : α → σ → σ
 
-def machine : Machine State Nat Nat where
+def machine : Machine State Nat (Option Nat) where
   connect := connect
   disconnect := disconnect
   delL := delListener
